@@ -939,6 +939,10 @@ pub fn main_c18(env: &Env, tier: &str, seed: u64, replay: Option<&str>) -> i32 {
                 tasks.push(Task { scenario: si, fault: Fault::StdoutQuit { n: nq } });
             }
         }
+        if s.kind == "oneshot" {
+            // the one-shot flags that page (--help, --show-colors, ...): SIGINT while delta waits for the pager
+            tasks.push(Task { scenario: si, fault: Fault::Sigint { at: "W".into(), stall: false } });
+        }
         if paged && s.kind != "oneshot" {
             // (d) stalled pager, (e) SIGINT at logged points
             tasks.push(Task { scenario: si, fault: Fault::Stall });
